@@ -51,19 +51,19 @@ Proof.
   split; [rewrite Ey; apply set_relay_keeps2; exact S|]. split; [rewrite Ey; apply set_relay_keeps3; exact S|].
   split; [rewrite Ey; apply sub_set_relay|].
   rewrite (set_relay_start_eq k x up S U D) in Ey.
-  assert (Up : up_on (sr_prep x (dirz up)) = false) by (unfold sr_prep, disarm; frw; exact U).
-  assert (Dp : down_on (sr_prep x (dirz up)) = false) by (unfold sr_prep, disarm; frw; exact D).
+  assert (Up : up_on (sr_prep x (dirz up)) = false) by exact U.
+  assert (Dp : down_on (sr_prep x (dirz up)) = false) by exact D.
   rewrite (sr_act_start k _ up _ Up Dp) in Ey.
-  assert (Rp : refused k (sr_prep x (dirz up)) up = false) by (unfold refused, cur_pos, sr_prep, disarm in *; frw; exact Rf).
+  assert (Rp : refused k (sr_prep x (dirz up)) up = false) by exact Rf.
   rewrite Rp in Ey.
   assert (On : forall z, z = set_button_req (relay_hi k (sr_prep x (dirz up)) up true) false -> only up z /\ delayed z = None).
   { intros z Ez. rewrite (relay_hi_on_eq k _ up Up Dp) in Ez. subst z. split.
-    - apply only_of; unfold set_button_req; frw; reflexivity.
-    - unfold set_button_req, sr_prep, disarm. frw. reflexivity. }
+    - apply only_of; reflexivity.
+    - reflexivity. }
   change DELAY_THRESHOLD_MS with 100 in Ey.
   destruct (100 <? start_delay_ms k x) eqn:El.
   - apply Z.ltb_lt in El. split; [|intros; lia]. right. split; [exact El|].
-    subst y. unfold set_button_req, sr_prep, disarm. frw. repeat split; auto. eexists. reflexivity.
+    subst y. repeat split; first [exact U | exact D | reflexivity | (eexists; reflexivity)].
   - apply Z.ltb_ge in El. split; [left|intros _]; exact (On y Ey).
 Qed.
 
